@@ -13,6 +13,8 @@ use std::cell::Cell;
 use std::sync::atomic::{AtomicU64, Ordering};
 
 pub mod simfs;
+pub mod simatomic;
+pub use simatomic::SimAtomicUsize;
 
 pub mod thread {
     pub use shuttle::thread::*;
@@ -76,8 +78,20 @@ pub fn trace_push(a: u64, b: u64) {
 }
 
 /// Scheduling point placed immediately before an atomic operation.
+///
+/// Sites below 100 are the hand-placed hooks in `/repo/src/bits`; since the atomic
+/// types of those files are themselves behind scheduling points (sites from 100:
+/// the `common_traits` shim; from 200: [`SimAtomicUsize`]) every one of them is
+/// immediately followed by a type-level point, so they no longer switch: two
+/// back-to-back switch points only dilute the PCT change points.
 #[inline]
 pub fn sched_point(site: u32) {
+    // (in the fallback build `--cfg sux_verif_stdatomic`, which keeps the std atomic
+    // types, the numbered hooks are the switch points again)
+    #[cfg(not(sux_verif_stdatomic))]
+    if site < 100 {
+        return;
+    }
     if in_shuttle() {
         if let Some(me) = shuttle::current::get_current_task() {
             let id: usize = me.into();
@@ -87,6 +101,15 @@ pub fn sched_point(site: u32) {
             // caller and make PCT degenerate.
             shuttle::thread::sleep(std::time::Duration::ZERO);
         }
+    }
+}
+
+/// Scheduling point of the `common_traits` shim in front of a trait-level atomic operation on
+/// `T`: skipped when `T` carries its own points ([`SimAtomicUsize`]).
+#[inline]
+pub fn sched_point_for<T: 'static>(site: u32) {
+    if core::any::TypeId::of::<T>() != core::any::TypeId::of::<SimAtomicUsize>() {
+        sched_point(site);
     }
 }
 
